@@ -1,4 +1,5 @@
 import Proofs.AskMembership
+import Proofs.RegEvo
 
 /-!
 # C02 — Every proposed configuration is a member of the declared search space
@@ -86,6 +87,48 @@ theorem C02_initial_design (ne : NumEnv) (d : Decl) (ts : List Slice) (x : Confi
     (h : invAll ne (normalizedHps d.hps) ts = some x) : memSpace d x = true :=
   design_mem hw hu h
 
+/-- **C02 (every call succeeds — totality of the model).**  The model returns an error output
+exactly where the code raises (`Err`: `badN`, `emptySample`, `badIndex`, `envShort`, `finRaises`,
+`notInSpace`, `noModel`; the table in `Proofs/AskTotal.lean` says which statement raises each).
+For every declared problem, every optimizer with `n_initial_points ≥ 1` satisfying the bookkeeping
+invariant `TInv` (any freshly set-up one: `C02_total_fresh`), every multi-point strategy and every
+sequence of ask/tell calls, **no call returns an error output**, under the environment contract
+`OpTotal`:
+* `ask(n)` has `n ≥ 1`; `Space.rvs` returns non-empty lists of members;
+* argmin / argsort / multinomial indices are positions of the array they were computed on, one
+  fit per constant-liar step, one argsort per kappa, `n + 100` multinomial draws (`OrdTotal`);
+* what is told are members (then `check_x_in_space` accepts them: `C02_accepted_back`);
+* `hrt` / `FitTotal.free`: transforming a member and coming back, and inverting the row lbfgs ends
+  on, does not raise.  `C02_roundtrip_total` reduces `hrt` to the *exact* round trip of
+  `inverse_transform ∘ transform` (property C09) — the deactivation step provably does not raise
+  on a member (`deactivate_member`).
+What is *not* covered: exceptions inside scikit-learn / NumPy / ConfigSpace sampling (the
+surrogate fit, the acquisition function) — those are environment here and are exercised by the
+oracle on the real code. -/
+theorem C02_total (ne : NumEnv) (d : Decl) (hw : d.wf = true)
+    (hrt : ∀ c, memSpace d c = true → ∃ x, fin ne d (tr ne d c) = some x)
+    (c₀ : Cbo Config) (h0 : TInv c₀.opt) (calls : List (Op Config (List Slice)))
+    (henv : ∀ o ∈ calls, OpTotal (fun x => memSpace d x = true) (memOps ne d) c₀.strat o) :
+    ∃ c Z, runOps (memOps ne d) c₀ calls = .ok (c, Z) :=
+  runOps_total ⟨hrt, fun x hx => mem_accept d x hw hx⟩ calls c₀ h0 henv
+
+/-- a freshly set-up optimizer with `n_initial_points ≥ 1` satisfies the invariant of `C02_total` -/
+theorem C02_total_fresh (filterOn dummy : Bool) (nInit : Int) (init : List Config) (h : 1 ≤ nInit) :
+    TInv (Opt.init filterOn dummy nInit init) :=
+  start_TInv filterOn dummy nInit init h
+
+/-- the round-trip contract of `C02_total` follows from the exact round trip of the transformers
+(C09) when ConfigSpace's rounding leaves the member's floats alone: `deactivate_inactive_dimensions`
+does not raise on a member (in particular not because of the placeholder of an inactive
+hyperparameter — defect 2f) -/
+theorem C02_roundtrip_total (ne : NumEnv) (d : Decl) (c : Config) (hc : memSpace d c = true)
+    (hr : RndFix ne c)
+    (hexact : invAll ne d.hps (if d.allCat then tr ne d c else clipAll ne d.hps (tr ne d c)) = some c) :
+    fin ne d (tr ne d c) = some c := by
+  unfold fin
+  simp only [hexact]
+  exact deactivate_member hc hr
+
 /-- **C02 (RandomSearch, RegularizedEvolution, `Space.rvs` with a ConfigSpace).**  A
 configuration sampled by ConfigSpace holds values for its active hyperparameters only; completing
 it with the canonical inactive values gives a member of the declared space, provided the sample
@@ -100,6 +143,20 @@ theorem C02_fill_inactive (d : Decl) (s : List (Option Val)) (x : Config)
   unfold memSpace
   simp only [Bool.and_eq_true, Bool.not_eq_true']
   exact ⟨fillInactive_memAll hx hs, hf⟩
+
+/-- **C02 (RegularizedEvolution).**  For every declared problem, every population whose
+configurations have member values, every sequence of `ask(n)` / `tell(results)` calls (what is
+told has member values — in a search these are earlier proposals) and every outcome of the seeded
+choices — which members of the population are sampled, which active hyperparameter is mutated,
+the value `hp.rvs()` draws (a member of that hyperparameter's dimension), the fresh samples
+(members: `C02_fill_inactive`) — every proposed configuration is a member of the declared space:
+the mutated child is re-validated by ConfigSpace (`deactivateE`: children (de)activated by the
+conditions, placeholders for the inactive ones, forbidden mutations re-drawn). -/
+theorem C02_regevo_member (ne : NumEnv) (d : Decl) (hw : d.wf = true) (st : RegEvo.St)
+    (hpop : ∀ p ∈ st.pop, dimsAll d.hps p.1 = true) (calls : List RegEvo.Op)
+    (henv : ∀ o ∈ calls, RegEvo.OpOK d o) (st' : RegEvo.St) (Z : List Config)
+    (hrun : RegEvo.run ne d st calls = .ok (st', Z)) : ∀ x ∈ Z, memSpace d x = true :=
+  RegEvo.run_mem hw hpop henv hrun
 
 /-! ### non-vacuity and regression witnesses -/
 
@@ -175,6 +232,40 @@ example : (run (memOps ne1 d1) (Cbo.start 1 false .clMin false) [round1, round1]
           [.str "w", .int 1, .int 1, .real (3000000000001 / 1000000000000)],
           [.str "x", .int 1, .int 9, .real (4000000000001 / 1000000000000)]] := by
   decide +kernel
+
+/-- RegularizedEvolution on `d1`: the parent `(x, 4, b=7)` is mutated on `a`; `a := "y"`
+deactivates `b` (placeholder 1), and with `m := 2` afterwards the clause `b == 1 ∧ m == 2` does not
+apply to the placeholder; a mutation onto the forbidden `(x, 2, b=1)` is re-drawn -/
+def stR : RegEvo.St :=
+  { popSize := 2, sampleSize := 1,
+    pop := [([.str "x", .int 4, .int 7, .real 1], 1), ([.str "x", .int 2, .int 3, .real 2], 2)] }
+
+example : (RegEvo.run ne1 d1 stR
+    [.ask 2 [] [⟨[0], [⟨"a", .str "y"⟩], []⟩,
+                ⟨[1, 0], [⟨"b", .int 1⟩, ⟨"m", .int 4⟩], []⟩]]).toOption.map (·.2) =
+    some [[.str "y", .int 4, .int 1, .real 1], [.str "x", .int 4, .int 3, .real 2]] := by
+  decide +kernel
+
+/-- the environment contract of `C02_total` is satisfiable (an `ask(2)` with constant liar) -/
+def envT : AskEnv Config (List Slice) :=
+  { cands := cands1, copyFit := fitIdx 0, steps := [⟨cands1, fitIdx 0⟩, ⟨cands1, fitIdx 0⟩],
+    orders := fun _ => [], refresh := fitIdx 0 }
+
+example : OpTotal (fun x => memSpace d1 x = true) (memOps ne1 d1) .clMin (.ask 2 envT) := by
+  have hfit : FitTotal (fun x => memSpace d1 x = true) (memOps ne1 d1) (fitIdx 0) :=
+    { ne := by decide, mem := by decide +kernel,
+      pick := fun l hl => by
+        cases l with
+        | nil => exact absurd rfl hl
+        | cons a t => simp,
+      free := fun t fb h => by simp [fitIdx] at h }
+  refine ⟨by decide, by decide, hfit, hfit, ⟨by decide, ?_⟩, ⟨?_, ?_, ?_⟩⟩
+  · intro st hst
+    simp only [envT, List.mem_cons, List.not_mem_nil, or_false] at hst
+    rcases hst with rfl | rfl <;> exact hfit
+  · intro h; cases h
+  · intro h; cases h
+  · intro h; simp [Strategy.isQ] at h
 
 end witnesses
 
